@@ -222,6 +222,9 @@ func (fv *FuncVC) contractMentions(key string) bool {
 
 func (fv *FuncVC) havoc(ms *modSet, tag string) {
 	st := fv.cur
+	if _, used := st.ghost["mapepoch"]; used || ms.anyCall {
+		st.ghost["mapepoch"] = fv.fresh("G_mapepoch_"+tag, SMath)
+	}
 	cellSet := map[*ssa.Alloc]bool{}
 	for a := range st.cells {
 		cellSet[a] = true
